@@ -50,6 +50,9 @@ def check(run, project):
     from . import c15
     c15.f1_f2(RuleView(run, "F1", "V7"), project)
     c20.t6(run, project, L, facets={"valid", "naming"}, rule="V5")
+    # V8 (= C01-W0): WHICH allowed set a field is checked against is decided by the type the layout declares for it: the
+    # decode facets (field names, order and declared types, selector maps) of all types equal the pinned snapshot
+    c20.t6(run, project, L, facets={"decode"}, rule="V8")
     v6(run, project, roles, L)
     run.floor("V5", 700, "pinned types")
 
